@@ -241,7 +241,9 @@ def go_harness(ctx, pkg, test, *, env=None, tags="verif", timeout=600, race=Fals
         head = [l for l in out.splitlines() if l.strip()][:1]
         m = re.search(r"^(panic: .*|fatal error: .*|unexpected fault address.*)$", out, re.M)
         frames = re.findall(r"^(github.com/panjf2000/gnet/v2[^\s(]*)\(", out, re.M)
-        gframes = [f for f in frames if "zz_verif" not in f and "internal/vsup" not in f]
+        gframes = [f for f in frames if ".TestVerif" not in f and "internal/vsup" not in f and ".verif" not in f.lower()]
+        if not gframes:
+            raise MachineryError("harness %s/%s crashed outside the code under test:\n%s" % (pkg, test, "\n".join(out.splitlines()[:40])))
         rep = {"name": name, "evaluations": 1, "distinct_nontrivial": 0, "samples": [], "extra": {},
                "findings": [{"kind": "violation", "sig": "%s/crash" % name, "count": 1,
                              "detail": "the test process crashed: %s (gnet frames: %s)" % (m.group(1) if m else head, ", ".join(gframes[:4]) or "none"),
